@@ -58,6 +58,9 @@ func forkF[B any](e *env, f func(int) B) fork.F[int, B] {
 		e.called(x)
 		e.gate(x)
 		if e.fails(x) {
+			if sc.ErrKind%2 == 1 {
+				return f(x), e.errFor(x) // the value the function would have returned comes back together with the error
+			}
 			var zero B
 			return zero, e.errFor(x)
 		}
@@ -227,8 +230,9 @@ func buildFork(e *env) (post func() string) {
 		p.validate = e.multisetValidator("fork.filter", want, true)
 		e.ports = []*port{p}
 		if sc.Mode == "lift" || sc.Mode == "try" {
-			// a predicate that returns errors: nothing is stated about which elements pass, only nothing invented or duplicated
-			p.validate = e.multisetValidator("fork.filter (predicate returns errors)", input, false)
+			// a predicate that returns errors: the reference is what the sequential pipe stage delivers with the same predicate
+			ref := pipe.ToSeq(pipe.Filter(context.Background(), pipe.Seq(input...), e.refPred()))
+			p.validate = e.multisetValidator("fork.filter (predicate returns errors; reference: pipe.Filter with the same predicate)", ref, true)
 		}
 		return callsOnce
 	case "fork.partition":
@@ -245,7 +249,14 @@ func buildFork(e *env) (post func() string) {
 		p.validate, q.validate = e.multisetValidator("fork.partition/left", l, true), e.multisetValidator("fork.partition/right", r, true)
 		e.ports = []*port{p, q}
 		if sc.Mode == "lift" || sc.Mode == "try" {
-			p.validate, q.validate = e.multisetValidator("fork.partition/left (predicate returns errors)", input, false), e.multisetValidator("fork.partition/right (predicate returns errors)", input, false)
+			// reference: pipe.Partition with the same predicate; each side is drained by a goroutine of its own
+			rl, rr := pipe.Partition(context.Background(), pipe.Seq(input...), e.refPred())
+			var refL, refR []int
+			done := make(chan struct{})
+			go func() { refR = pipe.ToSeq(rr); close(done) }()
+			refL = pipe.ToSeq(rl)
+			<-done
+			p.validate, q.validate = e.multisetValidator("fork.partition/left (predicate returns errors; reference: pipe.Partition)", refL, true), e.multisetValidator("fork.partition/right (predicate returns errors; reference: pipe.Partition)", refR, true)
 		}
 		return callsOnce
 	case "fork.forEach":
@@ -300,6 +311,21 @@ func buildFork(e *env) (post func() string) {
 			if len(p.delivered) == 1 && p.delivered[0] != full && !(ended && p.delivered[0] == want) {
 				return fmt.Sprintf("fork.fold(%s, %d workers) over %v delivered %v; the sequential fold is %d (accepted so far %d, input ended %v)", cm.name, par, elems, p.delivered, full, accepted, ended)
 			}
+			if sc.PreCancel && p.closed && ended {
+				// created on a context that had ended already: whatever pipe.Fold does with the same (ended) context and the
+				// same input is the reference - it delivers Empty() for an input that ends without an element, nothing otherwise
+				dead, kill := context.WithCancel(context.Background())
+				kill()
+				refIn := make(chan int, accepted)
+				for _, x := range elems[:accepted] {
+					refIn <- x
+				}
+				close(refIn)
+				rv, rok := <-pipe.Fold(dead, refIn, monoid.FromOp(cm.empty, cm.op))
+				if rok != (len(p.delivered) == 1) || rok && p.delivered[0] != rv {
+					return fmt.Sprintf("fork.fold(%s, %d workers) created on an ended context over %v (input closed): delivered %v; pipe.Fold under the same conditions delivers %v (ok=%v)", cm.name, par, elems[:accepted], p.delivered, rv, rok)
+				}
+			}
 			if final {
 				if !svOK || len(p.delivered) != 1 || p.delivered[0] != full || sv != full {
 					return fmt.Sprintf("fork.fold(%s, %d workers) over %v: closed after delivering %v; pipe.Fold gives %d, a plain loop from Empty() gives %d", cm.name, par, elems, p.delivered, sv, full)
@@ -311,4 +337,23 @@ func buildFork(e *env) (post func() string) {
 		return nil
 	}
 	panic("unknown fork stage " + sc.Stage)
+}
+
+// refPred is the scenario's predicate as a pipe morphism of the scenario's mode, without gates and bookkeeping:
+// the sequential reference stage runs with it.
+func (e *env) refPred() pipe.F[int, bool] {
+	sc := e.sc
+	either := func(x int) (bool, error) {
+		if e.fails(x) {
+			if sc.ErrKind%2 == 1 {
+				return sc.pred(x), fmt.Errorf("E%d", x)
+			}
+			return false, fmt.Errorf("E%d", x)
+		}
+		return sc.pred(x), nil
+	}
+	if sc.Mode == "lift" {
+		return pipe.Lift(either)
+	}
+	return pipe.Try(either)
 }
